@@ -101,8 +101,17 @@ def replay(ctx, st, idx):
     if op == 'construct':
         want = model_arr(res[0]), model_arr(res[1])
         try:
-            p = PixCoord(mk(s1, 3, 1, dtype), mk(s2, -2, 7, dtype))
-            got = obs(p.x), obs(p.y)
+            if idx % 3 == 2:
+                # mixed input forms: x a float (scalar or array) with a fractional part, y integers given as a Python list / int
+                xv = mk(s1, 3, 1, float) + 0.5
+                yv = mk(s2, -2, 7, np.int64)
+                yv = yv.tolist() if isinstance(yv, np.ndarray) else int(yv)
+                p = PixCoord(float(xv) if np.ndim(xv) == 0 else xv, yv)
+                got = (obs(p.x)[0], obs(p.x)[1] - 0.5), obs(p.y)
+                case = dict(case, dtype='x float + 0.5, y int list')
+            else:
+                p = PixCoord(mk(s1, 3, 1, dtype), mk(s2, -2, 7, dtype))
+                got = obs(p.x), obs(p.y)
             scalar_ok = (not (s1 == [] and s2 == [])) or (p.isscalar and not isinstance(p.x, np.ndarray))
         except ValueError:
             got, scalar_ok = (None, None), True
